@@ -141,31 +141,33 @@ def main():
     # 3. a user type hook raising during cache-miss resolution: a retry behaves normally afterwards
     from ovld import class_check
 
-    state = {"boom": True}
+    for exc_type in (RuntimeError, TypeError, AttributeError, KeyError):
+        state = {"boom": True}
 
-    def flaky(cls):
-        if state["boom"]:
-            raise RuntimeError("hook failed")
-        return cls is int
+        def flaky(cls, state=state, exc_type=exc_type):
+            if state["boom"]:
+                raise exc_type("hook failed")
+            return cls is int
 
-    F = class_check(flaky)
-    o = Ovld(name="k")
+        F = class_check(flaky)
+        o = Ovld(name="k")
 
-    def kf(x: F):
-        return "flaky"
+        def kf(x: F):
+            return "flaky"
 
-    def ko(x: object):
-        return "object"
+        def ko(x: object):
+            return "object"
 
-    o.register(kf)
-    o.register(ko)
-    n += 1
-    r1 = out(o, 1)
-    state["boom"] = False
-    n += 1
-    r2 = out(o, 1)
-    if r2 != ("ok", "flaky"):
-        fail("hook_exception_during_resolution_then_retry", first=r1, retry=r2)
+        o.register(kf)
+        o.register(ko)
+        n += 1
+        r1 = out(o, 1)
+        state["boom"] = False
+        n += 1
+        r2 = out(o, 1)
+        if r2 != ("ok", "flaky") or r1 == ("ok", "object"):
+            # the failing condition must not be taken for "does not match" (the less specific method would be cached and run)
+            fail("hook_exception_during_resolution_then_retry", exception=exc_type.__name__, first=r1, retry=r2)
     # 3b. the same with a plain abstract class whose __subclasshook__ fails once (any exception type)
     import abc
 
